@@ -131,7 +131,11 @@ class Check(PropertyCheck):
             w, h = F(root.attrs["width"]), F(root.attrs["height"])
             if i < 3:
                 self.sample({"input": t, "scale": scales[i], "canvas": [str(w), str(h)]})
-            if (w, h) != (ew, eh):
+            # beyond 2^24 an f32 no longer holds every integer (row 300 005 at scale 37.5 gives a height of 22 500 525,
+            # printed 22500524): accept two units in the last place of an f32 there, and only there
+            def close(got, want):
+                return got == want or (abs(want) >= (1 << 23) and abs(got - want) <= abs(want) / (1 << 22))
+            if not (close(w, ew) and close(h, eh)):
                 fails.append(Failure("canvas is not one cell larger than the last occupied cell", case,
                                      {"got": [str(w), str(h)], "want": [str(ew), str(eh)]}))
                 continue
